@@ -319,6 +319,15 @@ fn main() {
             pats.push(format!("{{{},py-foo>=1}}", alts.join(",")));
             pats.push(format!("py-foo{{{},>=1}}", alts.join(",")));
         }
+        // alternatives that collide under hand-written 32-bit hashes (a set of expansions keyed by
+        // such a hash instead of the string loses one of them)
+        for (a, b, _) in mc_core::chars::HASH_COLLISIONS {
+            for (x, y) in [(a, b), (b, a)] {
+                pats.push(format!("{{{},{}}}-[0-9]*", x, y));
+                pats.push(format!("{{{},{}}}-1", x, y));
+                pats.push(format!("{{{},zz,{}}}>=1", x, y));
+            }
+        }
         for g in [4usize, 6, 8, 10] {
             pats.push(format!("p{}-1", "{a,b}".repeat(g)));
             pats.push(format!("p{}-1", "{,a}".repeat(g)));
@@ -336,7 +345,12 @@ fn main() {
         let names: Vec<String> = ["p-1", "pa0-1", "pa7-1", "pa15-1", "pa16-1", "pa63-1", "pa199-1", "pa200-1", "a0p-1", "a16p-1", "p-0", "p-16", "p-199", "p-200",
             "py-xyz-foo-1", "py-opt3-foo-1", "py-opt16-foo-1", "py-xyz-foo-2", "py-x-foo-1", "py-foo-1", "py-foo-2", "py-foo-0", "py-fooopt3", "opt3", "py-yaz-foo-1",
             "pab-1", "paaaa-1", "paaaaaaaaaaaa-1", "paaaaaaaaaaaaaaaaaa-1", "paaaaaaaaaaaaaaaaaaaa-1", "pabababab-1", "paaaaaaaaaa-1", "pb-1", "pa-1", "pbbbba-1", "pc-1", "pac-1", "pacccc-1"].iter().map(|s| s.to_string()).collect();
-        run.bound(format!("scale: {} patterns with 8..200 alternatives, 4..10 groups, nesting depth 4..32 x {} names plus own expansions", pats.len(), names.len()));
+        let mut names = names;
+        for (a, b, _) in mc_core::chars::HASH_COLLISIONS {
+            names.push(format!("{}-1", a));
+            names.push(format!("{}-1", b));
+        }
+        run.bound(format!("scale: {} patterns with 8..200 alternatives, 4..10 groups, nesting depth 4..32, 36 pairs of alternatives colliding under common 32-bit hashes x {} names plus own expansions", pats.len(), names.len()));
         for p in &pats {
             t.states += 1;
             check(&mut t, p, &names, true);
